@@ -95,7 +95,10 @@ fn unknown_operation() -> S3Error {
 }
 
 fn extract_host(req: &Request) -> S3Result<Option<String>> {
-    let Some(val) = req.headers.get(crate::header::HOST) else { return Ok(None) };
+    let Some(val) = req.headers.get(crate::header::HOST) else {
+        // HTTP/2 has no Host line: the authority of the request target names the host
+        return Ok(req.uri.authority().map(|authority| authority.as_str().into()));
+    };
     let on_err = |e| s3_error!(e, InvalidRequest, "invalid header: Host: {val:?}");
     let host = val.to_str().map_err(on_err)?;
     Ok(Some(host.into()))
